@@ -53,7 +53,8 @@ type hop struct {
 	Client int    `json:"client"`
 	Kind   string `json:"op"` // set delete get
 	Key    string `json:"key"`
-	Val    string `json:"value,omitempty"`
+	Val    string `json:"value,omitempty"` // long values: length and digest, see digest()
+	ValLen int    `json:"value_bytes,omitempty"`
 	Ver    uint64 `json:"version"`
 	How    string `json:"version_choice,omitempty"`
 	Call   int64  `json:"call"`
@@ -366,7 +367,7 @@ func digest(v string) string {
 // perform executes one recorded operation at the client boundary: call and return numbers
 // come from the one atomic counter; val is the full value of a set (h.Val holds its digest).
 func perform(rs *kv.RaftStore, h *hop, val string, ctr *atomic.Int64) (kv.Pair, bool) {
-	h.Val = digest(val)
+	h.Val, h.ValLen = digest(val), len(val)
 	h.Call = ctr.Add(1)
 	var err error
 	var p kv.Pair
@@ -498,6 +499,7 @@ func runStore(r *ev.Run, id caseID) ([]hop, bool) {
 			cur := coord("get", k, "", 0)
 			if st := coord("set", k, sizedValue(crng, size, "blob-"), cur.OutVer); st.Out == "ok" {
 				r.Count("raftstore_sized_value_before_restart:"+sizeBucket(size), 1)
+				r.Count("raftstore_sized_values_before_restart", 1)
 			}
 			for try := 0; try < 20; try++ {
 				ctx, cancel := context.WithTimeout(context.Background(), 30*time.Second)
@@ -575,6 +577,9 @@ func runStoreCase(r *ev.Run, id caseID) {
 		r.Count("raftstore_op:"+h.Kind+"-"+h.Out, 1)
 		if h.Kind != "get" {
 			r.Distinct("raftstore_version_choices", h.How+"/"+h.Out)
+		}
+		if h.Kind == "set" && h.Out == "ok" && h.ValLen >= 4095 {
+			r.Count("raftstore_set_ok_value_size:"+sizeBucket(h.ValLen), 1)
 		}
 	}
 	judgeHistory(r, id, all)
